@@ -135,10 +135,18 @@ UN = {
 }
 
 
+RAW = set()      # structural ids of raw candle inputs (valid candles: finite, not NaN)
+
+
 def unop(op: str, a):
     if isinstance(a, D):
         if op in ("float", "pos"):
             return a
+        if a.h in RAW:
+            if op in ("isnan", "isinf"):
+                return False
+            if op == "isfinite":
+                return True
         return mk(op, a)
     if a is None:
         raise Undecided(f"{op} of None")
@@ -249,3 +257,28 @@ def fold(op: str, xs: List, init=None):
     for x in it:
         acc = binop(op, acc, x)
     return acc
+
+
+class Builtin:
+    def __init__(self, fn, name=""):
+        self.fn, self.name = fn, name
+
+
+class BoundMethod:
+    def __init__(self, fn):
+        self.fn = fn
+
+
+class NTClass:
+    def __init__(self, name, fields):
+        self.name, self.fields = name, list(fields)
+
+
+class NT:
+    def __init__(self, cls, vals):
+        self.cls, self.vals = cls, list(vals)
+
+
+class PyRaise(Exception):
+    def __init__(self, name):
+        self.name = name
